@@ -83,12 +83,40 @@ func runSeqHistory(ops []int, p *party) *finding {
 	q := util.NewQueue()
 	var ref [][]byte
 	var held []byte
-	var log []string
+	type srec struct {
+		op    int
+		b     []byte
+		d     int
+		final bool
+	}
+	var recs [24]srec
+	nrec := 0
 	nEnq := 0
 	fail := func(key, f string, a ...interface{}) *finding {
+		var log []string
+		for _, x := range recs[:nrec] {
+			tag := ""
+			if x.final {
+				tag = "(final) "
+			}
+			switch x.op {
+			case opEnq, opReq:
+				log = append(log, fmt.Sprintf("%s%s(%q)", tag, opNames[x.op], x.b))
+			case opDepth:
+				log = append(log, fmt.Sprintf("%sGetDepth() = %d", tag, x.d))
+			default:
+				log = append(log, fmt.Sprintf("%s%s() = %s", tag, opNames[x.op], nilOr(x.b)))
+			}
+		}
 		return &finding{key: key, detail: fmt.Sprintf("sequential history [%s]: %s\n%s", histString(ops), fmt.Sprintf(f, a...), joinLines(log))}
 	}
-	step := func(o int, tag string) *finding {
+	note := func(o int, b []byte, d int, final bool) {
+		if nrec < len(recs) {
+			recs[nrec] = srec{o, b, d, final}
+			nrec++
+		}
+	}
+	step := func(o int, final bool) *finding {
 		defer p.prog.Add(1)
 		switch o {
 		case opEnq:
@@ -96,10 +124,10 @@ func runSeqHistory(ops []int, p *party) *finding {
 			nEnq++
 			q.Enqueue(c)
 			ref = append(ref, c)
-			log = append(log, fmt.Sprintf("%sEnqueue(%q)", tag, c))
+			note(o, c, 0, final)
 		case opDeq:
 			b := q.Dequeue()
-			log = append(log, fmt.Sprintf("%sDequeue() = %s", tag, nilOr(b)))
+			note(o, b, 0, final)
 			if len(ref) == 0 {
 				if b != nil {
 					return fail("c20/seq:dequeue-nonnil-on-empty", "Dequeue() on an empty queue returned %q, expected nil", b)
@@ -117,7 +145,7 @@ func runSeqHistory(ops []int, p *party) *finding {
 			held = b
 		case opAll:
 			b := q.DequeueAll()
-			log = append(log, fmt.Sprintf("%sDequeueAll() = %s", tag, nilOr(b)))
+			note(o, b, 0, final)
 			if len(ref) == 0 {
 				if b != nil {
 					return fail("c20/seq:dequeueall-nonnil-on-empty", "DequeueAll() on an empty queue returned %q, expected nil", b)
@@ -136,12 +164,12 @@ func runSeqHistory(ops []int, p *party) *finding {
 			held = b
 		case opReq:
 			q.Requeue(held)
-			log = append(log, fmt.Sprintf("%sRequeue(%q)", tag, held))
+			note(o, held, 0, final)
 			ref = append([][]byte{held}, ref...)
 			held = nil
 		case opDepth:
 			d := q.GetDepth()
-			log = append(log, fmt.Sprintf("%sGetDepth() = %d", tag, d))
+			note(o, nil, d, final)
 			if d != len(ref) {
 				return fail("c20/seq:depth-mismatch", "GetDepth() = %d, the reference holds %d element(s)", d, len(ref))
 			}
@@ -149,13 +177,13 @@ func runSeqHistory(ops []int, p *party) *finding {
 		return nil
 	}
 	for _, o := range ops {
-		if f := step(o, ""); f != nil {
+		if f := step(o, false); f != nil {
 			return f
 		}
 	}
 	// residual state: depth, then everything that is left, then empty
 	for _, o := range []int{opDepth, opAll, opDepth, opDeq, opAll} {
-		if f := step(o, "(final) "); f != nil {
+		if f := step(o, true); f != nil {
 			return f
 		}
 	}
